@@ -127,8 +127,22 @@ func doReplay(path string) {
 		rp.Tier = "quick"
 	}
 	fmt.Printf("replaying %s\n  recorded: %s\n", doc.Signature, doc.What)
-	if rp.Family == "crash" {
-		fmt.Println("  (a crashing chunk is replayed by running its whole chunk)")
+	if rp.Prog < 0 && os.Getenv("C01_REPLAY_INNER") == "" {
+		// a crashing / hanging chunk is replayed as a whole in a subprocess so that the crash is reported, not suffered
+		self, _ := os.Executable()
+		cmd := exec.Command(self, "replay", path)
+		cmd.Env = append(os.Environ(), "C01_REPLAY_INNER=1")
+		out, err := cmd.CombinedOutput()
+		tail := string(out)
+		if len(tail) > 3000 {
+			tail = tail[:1500] + "\n...\n" + tail[len(tail)-1500:]
+		}
+		fmt.Println(tail)
+		if err != nil {
+			fmt.Printf("STILL FAILS: replaying the whole chunk ends with %v\n", err)
+			os.Exit(1)
+		}
+		os.Exit(0)
 	}
 	for _, f := range families(rp.Tier) {
 		if f.Name() != rp.Family {
